@@ -1003,6 +1003,50 @@ def build_models():
     return M
 
 
+
+# External functions that can neither panic nor allocate in proportion to an argument, and that mutate nothing except
+# through the `&mut` arguments they are given (which the interpreter havocs).  A call to one of these is analysed as
+# "returns any value of its type"; it is not reported as unmodelled.  (Functions that can panic - `copy_within`,
+# `split_at`, `clamp`, `Vec::remove`, indexing - or allocate by an argument - `with_capacity`, `reserve`, `repeat` -
+# must NOT be listed: unmodelled externals fail closed.)
+def _int_methods(names):
+    out = set()
+    for ty in ("u8", "u16", "u32", "u64", "u128", "usize", "i8", "i16", "i32", "i64", "i128", "isize"):
+        for n in names:
+            out.add("core::num::<impl %s>::%s" % (ty, n))
+    return out
+
+
+TOTAL_EXTERNALS = _int_methods([
+    "saturating_sub", "saturating_add", "saturating_mul", "wrapping_add", "wrapping_sub", "wrapping_mul", "wrapping_neg",
+    "wrapping_shl", "wrapping_shr", "checked_add", "checked_sub", "checked_mul", "checked_div", "checked_rem", "checked_shl",
+    "checked_shr", "overflowing_add", "overflowing_sub", "overflowing_mul", "leading_zeros", "trailing_zeros", "count_ones",
+    "count_zeros", "is_power_of_two", "abs_diff", "rotate_left", "rotate_right", "swap_bytes", "to_be_bytes", "to_le_bytes",
+    "to_ne_bytes", "from_be_bytes", "from_le_bytes", "from_ne_bytes", "to_be", "to_le", "from_be", "from_le", "min_value",
+    "max_value", "reverse_bits", "leading_ones", "trailing_ones"]) | {
+    "std::cmp::min", "std::cmp::max", "std::cmp::Ord::min", "std::cmp::Ord::max", "std::cmp::Ord::cmp",
+    "std::cmp::PartialOrd::partial_cmp", "std::cmp::PartialOrd::lt", "std::cmp::PartialOrd::le", "std::cmp::PartialOrd::gt",
+    "std::cmp::PartialOrd::ge", "std::cmp::PartialEq::eq",
+    "std::mem::take", "std::mem::replace", "std::mem::swap", "std::mem::size_of", "std::mem::drop",
+    "std::option::Option::is_some", "std::option::Option::is_none", "std::option::Option::ok_or", "std::option::Option::or",
+    "std::option::Option::xor", "std::option::Option::unwrap_or_default", "std::option::Option::copied",
+    "std::option::Option::cloned", "std::option::Option::get_or_insert", "std::option::Option::insert",
+    "std::result::Result::is_ok", "std::result::Result::ok", "std::result::Result::err", "std::result::Result::unwrap_or",
+    "std::result::Result::unwrap_or_default",
+    "core::slice::<impl [T]>::first", "core::slice::<impl [T]>::last", "core::slice::<impl [T]>::first_mut",
+    "core::slice::<impl [T]>::last_mut", "core::slice::<impl [T]>::get_mut", "core::slice::<impl [T]>::contains",
+    "core::slice::<impl [T]>::starts_with", "core::slice::<impl [T]>::ends_with", "core::slice::<impl [T]>::iter_mut",
+    "core::slice::<impl [T]>::reverse", "core::slice::<impl [T]>::as_ptr",
+    "std::slice::<impl [T]>::into_vec", "std::vec::Vec::capacity", "std::vec::Vec::is_empty", "std::vec::Vec::pop",
+    "std::vec::Vec::truncate", "std::vec::Vec::last", "std::vec::Vec::first", "std::vec::Vec::shrink_to_fit",
+    "std::vec::Vec::into_boxed_slice", "std::vec::Vec::as_ptr",
+    "<std::vec::Vec<T, A> as std::convert::From<std::boxed::Box<[T], A>>>::from",
+    "std::io::Error::kind", "<std::io::ErrorKind as std::cmp::PartialEq>::eq",
+}
+from .mir import _strip_generics as _sg
+TOTAL_EXTERNALS |= {_sg(x) for x in TOTAL_EXTERNALS}
+
+
 def io_trait_models():
     """Models for unresolved io trait calls on opaque / std readers & writers.
     They are consulted only when the receiver does not resolve to a crate impl."""
